@@ -45,8 +45,11 @@ Go sources modelled (statement order mirrored):
 Abstracted: the retry logic of error proofs (only "message removed, no
 success effect" is kept), metrics events, the content of the handover message that a compass
 upload schedules (only the fact: `Effect.handoverScheduled`, the one effect tag with no executable
-counterpart — the handover message itself is not put into the model's queue), ABI parsing of the
-stored compass ABI (assumed to be the compass ABI), the deployed address stored with a compass /
+counterpart — the handover message itself is not put into the model's queue), the TEXT of the
+stored compass ABI (kept: whether it parses and whether it declares each delivery method with the
+parameter list the Go argument list packs to — `CompassAbi`, read from the LATEST compass at
+attestation time; when the expected call data cannot be built `VerifyAgainstTX` returns a
+non-sentinel error and nothing is committed: `buildable`, `Res.encodeErr`), the deployed address stored with a compass /
 user deployment, the `(chain, block height)` key of a user deployment inside its contract (one
 deployment per user contract on this chain), one chain.  Core Lean only.
 -/
@@ -115,6 +118,11 @@ structure QMsg where
       (the empty valset when the id is 0 or the snapshot does not exist) -/
   valset : GoValset
   sigs : List SignData
+  /-- `UploadSmartContract` only (not read for the other actions): the message's own `Abi` parses
+      (`abi.JSON(m.GetAbi())`) and its constructor input, when there is one, unpacks against the
+      constructor of that ABI — i.e. the expected deployment call data exists.  Any string can be
+      stored here: `AddUploadSmartContractToConsensus` checks nothing. -/
+  upOk : Bool := true
 deriving Repr, Inhabited
 
 /-- selector, argument types and argument values `VerifyAgainstTX` packs after the consensus for the
@@ -151,6 +159,32 @@ inductive VerifyRes where
   | notVerified     -- `ErrEthTxNotVerified`
 deriving Repr, DecidableEq, Inhabited
 
+/-- What `VerifyAgainstTX` needs of the ABI of the compass `GetLastCompassContract` returns — the
+    compass saved LAST (governance proposal / genesis), which is not necessarily the one active on
+    the chain the message was relayed to — in order to BUILD the expected call data:
+    `abi.JSON(compass.AbiJSON)` must succeed and `contractABI.Pack(method, args…)` must find the
+    method with a parameter list the Go argument list fits.  `true` for a method = declared with
+    exactly the parameter list of the `#guard`s above (so the selector and the encoding are those of
+    `calldata`); `false` = not declared, or declared with a parameter list `Pack` refuses the
+    arguments for (count or kind mismatch).  A method that packs the same arguments to OTHER bytes is
+    outside this model. -/
+structure CompassAbi where
+  parses : Bool := true
+  uv : Bool := true      -- `update_valset`
+  slc : Bool := true     -- `submit_logic_call`
+  usc : Bool := true     -- `deploy_contract`
+  ch : Bool := true      -- `compass_update_batch`
+deriving Repr, DecidableEq, Inhabited
+
+/-- `contractABI.Pack(method of the action, …)` does not fail -/
+def CompassAbi.packs (c : CompassAbi) (a : Action) : Bool :=
+  match a with
+  | .uv _ _ => c.uv
+  | .slc _ => c.slc
+  | .usc _ _ => c.usc
+  | .ch _ _ => c.ch
+  | .up _ _ _ => true
+
 def isUp (a : Action) : Bool :=
   match a with
   | .up _ _ _ => true
@@ -160,6 +194,15 @@ def upData (a : Action) : Bytes :=
   match a with
   | .up bc ctor _ => bc ++ ctor
   | _ => []
+
+/-- The expected call data of the stored message can be built, i.e. `VerifyAgainstTX` reaches its
+    `bytes.Equal`: for a compass upload the message's own ABI / constructor input are usable; for the
+    compass calls the latest compass ABI parses and — `Pack` is only called inside the loop over the
+    signature prefixes, which does not run without signatures — declares the method.  When this is
+    `false`, `VerifyAgainstTX` returns an error that is NOT `ErrEthTxNotVerified`. -/
+def buildable (c : CompassAbi) (m : QMsg) : Bool :=
+  if isUp m.action then m.upOk
+  else c.parses && (m.sigs.isEmpty || c.packs m.action)
 
 /-- `VerifyAgainstTX` -/
 def verifyAgainstTx (m : QMsg) (data : Bytes) : VerifyRes :=
@@ -225,6 +268,7 @@ structure Chain where
   userDeployments : List Nat := []             -- user contract ids with a deployment on this chain
   userActive : List Nat := []                  -- … whose deployment on this chain has status `ACTIVE`
   handoverOk : Bool := true                    -- `scheduleCompassHandover` can pick a relayer
+  abi : CompassAbi := {}                       -- ABI of the LATEST compass (`GetLastCompassContract`)
 deriving Repr, DecidableEq, Inhabited
 
 /-- `GetLatestSnapshotOnChain`: walk down from the last snapshot id; a missing snapshot ends the walk
@@ -265,6 +309,8 @@ inductive Res where
   | alreadyProcessed   -- `ErrUnexpectedError`  (not committed)
   | receiptErr         -- `GetReceipt` error    (not committed)
   | postErr            -- an error after verification (not committed)
+  | encodeErr          -- the expected call data could not be built: ABI parse / `Pack` /
+                       -- constructor-input unpack error of `VerifyAgainstTX` (not committed)
 deriving Repr, DecidableEq, Inhabited
 
 def findMsg (q : List QMsg) (id : Nat) : Option QMsg := q.find? fun m => m.id == id
@@ -346,6 +392,7 @@ def attest (s : St) (id : Nat) (w : Winner) : St × Res :=
       if p.receipt = none then (s, .receiptErr)
       else if p.receipt ≠ some 1 then (commitReject s id p.hash, .txFailed)
       else if s.processed.contains p.hash then (s, .alreadyProcessed)
+      else if !(buildable s.chain.abi m) then (s, .encodeErr)
       else
         match verifyAgainstTx m p.data with
         | .notVerified => (commitReject s id p.hash, .notVerified)
